@@ -235,9 +235,11 @@ _norm = re.compile(r'^\s*-?\d+\.\d{4} (\w+): ')
 
 
 def interleave(ctx, case):
-    na, nb = case
+    na, nb = case[:2]
+    sa, sb = (case[2], case[3]) if len(case) > 2 else (0, 0)
     _quiet()
-    A, B = STREAM_A[:na], STREAM_B[:nb]
+    # a stream may start after its get_registry (the log began later): then the role is unknown
+    A, B = STREAM_A[sa:sa + na], STREAM_B[sb:sb + nb]
     # choose an interleaving preserving each stream's order
     order = []
     ia = ib = 0
@@ -258,32 +260,39 @@ def interleave(ctx, case):
         it, er, _ = _render(S)
         alone[k] = [_norm.sub('', s) for s in it if _norm.match(s)]
     ctx.check('no error output', errs == [])
-    per = {'A': [], 'B': []}
-    for s in items:
-        m = _norm.match(s)
-        if m:
-            per.setdefault(m.group(1), []).append(_norm.sub('', s))
-    for k in ('a', 'b'):
-        if (na if k == 'a' else nb) == 0:
-            continue
-        ctx.check('connections are named in order of first appearance', name_of[k] in per)
-        ctx.check('what is shown for a connection (objects, incarnation letters, destroyed annotations) does not depend on the interleaving',
-                  per.get(name_of[k]) == alone[k])
-    # notices
-    for k in ('a', 'b'):
-        n = name_of[k]
-        if (na if k == 'a' else nb) == 0:
-            continue
-        news = [i for i, s in enumerate(items) if s.startswith('New ') and s.endswith(' connection ' + n)]
-        closed = [i for i, s in enumerate(items) if s.startswith('Closed ') and s.endswith(' connection ' + n)]
-        lines_n = [i for i, s in enumerate(items) if _norm.match(s) and _norm.match(s).group(1) == n]
-        ctx.check('announced once before its first message', len(news) == 1 and news[0] < lines_n[0])
-        ctx.check('reported closed once after the last line', len(closed) == 1 and closed[0] > max(i for i, s in enumerate(items) if _norm.match(s)))
+    if sa == 0 and sb == 0:
+        per = {'A': [], 'B': []}
+        for s in items:
+            m = _norm.match(s)
+            if m:
+                per.setdefault(m.group(1), []).append(_norm.sub('', s))
+        for k in ('a', 'b'):
+            if (na if k == 'a' else nb) == 0:
+                continue
+            ctx.check('connections are named in order of first appearance', name_of[k] in per)
+            ctx.check('what is shown for a connection (objects, incarnation letters, destroyed annotations) does not depend on the interleaving',
+                      per.get(name_of[k]) == alone[k])
+        # notices
+        for k in ('a', 'b'):
+            n = name_of[k]
+            if (na if k == 'a' else nb) == 0:
+                continue
+            news = [i for i, s in enumerate(items) if s.startswith('New ') and s.endswith(' connection ' + n)]
+            closed = [i for i, s in enumerate(items) if s.startswith('Closed ') and s.endswith(' connection ' + n)]
+            lines_n = [i for i, s in enumerate(items) if _norm.match(s) and _norm.match(s).group(1) == n]
+            ctx.check('announced once before its first message', len(news) == 1 and news[0] < lines_n[0])
+            ctx.check('reported closed once after the last line', len(closed) == 1 and closed[0] > max(i for i, s in enumerate(items) if _norm.match(s)))
+    else:
+        # streams that begin after their get_registry mention objects that were never created (shown as unresolved, without
+        # a connection prefix): only the connection-level facts are checked for them
+        ctx.check('each connection announced and closed once', len([s for s in items if s.startswith('New ')]) == 2 and len([s for s in items if s.startswith('Closed ')]) == 2)
     roles = {c.name(): c.is_server() for c in mgr.connections()}
     if na:
-        ctx.check('role from the direction of get_registry (sent = client side)', roles[name_of['a']] is False)
+        ctx.check('role of the first connection: from the direction of ITS OWN get_registry (sent = client side), unknown if its first line is something else',
+                  roles[name_of['a']] is (False if sa == 0 else None))
     if nb:
-        ctx.check('role from the direction of get_registry (received = server side)', roles[name_of['b']] is True)
+        ctx.check('role of the second connection: from the direction of ITS OWN get_registry (received = server side), unknown if its first line is something else',
+                  roles[name_of['b']] is (True if sb == 0 else None))
     ctx.check('all connections closed and still listed', all(not c.is_open() for c in mgr.connections()) and len(mgr.connections()) == (1 if na else 0) + (1 if nb else 0))
 
 
@@ -309,6 +318,7 @@ def obligations(tier):
            'all sequences of <= %d operations over 3 connection ids (exhaustive)' % (3 if tier == 'quick' else 4), lifecycle, cases=[1, 2, 3] if tier == 'quick' else [1, 2, 3, 4]),
         Ob('interleavings', 'symx', 'every interleaving of two tagged log streams (colliding object ids): per-connection display independent of the interleaving; notices', FUNCS,
            'streams of <= 4 + <= 4 lines, all order-preserving interleavings (exhaustive)', interleave,
-           cases=[(a, b) for a in range(0, 5) for b in range(0, 5) if a + b > 0 and (tier != 'quick' or a + b <= 6)]),
+           cases=[(a, b) for a in range(0, 5) for b in range(0, 5) if a + b > 0 and (tier != 'quick' or a + b <= 6)] +
+                 [(a, b, x, y) for (x, y) in ((1, 0), (0, 1), (1, 1)) for a in (1, 2, 3) for b in (1, 2, 3) if x + a <= 4 and y + b <= 4 and (tier != 'quick' or a + b <= 4)]),
         Ob('frame-reachable', 'symx', 'reachability twin', FUNCS[:6], '', twin, cases=[(('new', 'obj'), 'x')], expect_cex=True),
     ]
